@@ -125,7 +125,7 @@ def render_fn(f):
     lines.append(ind + ("async " if f["async"] else "") + "def fx_sample(%s)%s:" % (sig, RET[f["ret"]]))
     b = ind + "    "
     for l in doc_lines(f["doc"], b):
-        lines.append((b + l) if l and not l.startswith(b) else l)
+        lines.append(l if (not l.strip() or l.startswith(b)) else b + l)
     for l in BODY[f["body"]]:
         lines.append(b + l)
     lines += ["", ""]
@@ -278,3 +278,190 @@ def classify_c03(what, fn, detail):
     if what.startswith("field yield_line") and fn and fn["body"] in ("yield_assign",):
         return "yield_line_expr_stmt_only"
     return None
+
+
+# ------------------------------------------------------------------------------------------- C15
+PLACE = {"<E2>": "é", "<C3>": "中", "<M4>": "\U0001F600", "<TAB>": "\t"}
+
+
+def piece_text(p):
+    t = p["t"]
+    for k, v in PLACE.items():
+        t = t.replace(k, v)
+    return t
+
+
+def u16len(s):
+    return len(s.encode("utf-16-le")) // 2
+
+
+def render_pos_case(c):
+    L = c["line"]
+    pieces = list(L["before"] or []) + list(L["open"] or []) + [L["tok"]] + list(L["close"] or []) + list(L["after"] or [])
+    for p in pieces:
+        t = piece_text(p)
+        if len(t.encode("utf-8")) != p["b"] or u16len(t) != p["u"]:
+            raise C.ToolError("Positions.tla declares widths %r for piece %r" % ((p["b"], p["u"]), t))
+    line = "".join(piece_text(p) for p in pieces)
+    head = ["import pytest", "", "", "@pytest.fixture", "def fx():", "    return 1", "", ""]
+    k = c["c"]
+    if k == "test_param":
+        body = [line, "    pass"]
+    elif k == "fixture_param":
+        body = ["@pytest.fixture", line, "    return 1"]
+    elif k == "usefix":
+        body = [line, "def test_u():", "    pass"]
+    elif k == "usefix_class":
+        body = [line, "class TestK:", "    def test_u(self):", "        pass"]
+    elif k == "pytestmark":
+        body = [line]
+    elif k in ("indirect_true", "indirect_list"):
+        body = [line, "def test_i(fx):", "    pass"]
+    elif k in ("defname", "defname_async"):
+        body = ["@pytest.fixture", line, "    return 1"]
+    elif k == "defname_tab":
+        body = ["class TestK:", "\t@pytest.fixture", line, "\t\treturn 1"]
+    elif k == "defname_class":
+        body = ["class TestK:", "    @pytest.fixture", line, "        return 1"]
+    else:
+        raise C.ToolError("unknown construct %r" % k)
+    text = "\n".join(head + body) + "\n"
+    target_line = len(head) + body.index(line) + 1
+    return text, target_line
+
+
+def check_c15(tier):
+    import lsp
+    V = C.Verdict("C15", tier, "model_checking")
+    meta = C.run_tlc("Positions", "Positions.cfg", workers=4, timeout=3600)
+    if not meta["ok"]:
+        raise C.ToolError("TLC on Positions failed: %s" % meta["errors"])
+    C.build_harness()
+    cases = list(C.tlc_cases(meta))
+    hcases, rendered = [], []
+    variants = [("lf", "\n")] + ([("crlf", "\r\n")])
+    for c in cases:
+        text, tl = render_pos_case(c)
+        for vname, eol in variants:
+            t2 = text.replace("\n", eol)
+            rendered.append((c, t2, tl, vname))
+            hcases.append({"id": len(hcases), "ops": [{"op": "analyze", "path": "/vws/p/test_pos.py", "text": t2},
+                                                      {"op": "snapshot", "full": True}]})
+    results = list(C.run_harness(hcases))
+    for (c, text, tl, vname), res in zip(rendered, results):
+        V.count()
+        V.nontriv((json.dumps({k: c[k] for k in ("c", "pk", "sf", "nm")}, sort_keys=True), vname))
+        snap = res["res"][1]
+        ex = {"construct": c["c"], "prefix": c["pk"], "string_form": c["sf"], "name_kind": c["nm"], "eol": vname, "text": text}
+        if not isinstance(snap, dict):
+            V.violation(dict(ex, result=res["res"]), "analysis failed or panicked")
+            continue
+        exp = (c["expect"]["start"], c["expect"]["end"])
+        impl = (c["impl"]["start"], c["impl"]["end"])
+        # tool sanity: CPython's tokenisation agrees with the specification's expected UTF-16 range
+        cdefs, cus = cpyextract.extract(text.replace("\r\n", "\n"))
+        if c["c"].startswith("defname"):
+            cand = [d["namepos"] for d in cdefs if d["line"] == tl]
+            real = [(d["sc"], d["ec"]) for lst in snap["defs"].values() for d in lst if d["line"] == tl]
+        else:
+            cand = [u for u in cus if u["line"] == tl and u["name"] == "fx" and "u0" in u]
+            real = [(u["sc"], u["ec"]) for u in snap["usages"].get("/vws/p/test_pos.py", []) if u["line"] == tl and u["name"] == "fx"]
+        if not cand or (cand[0]["u0"], cand[0]["u1"]) != exp:
+            raise C.ToolError("Positions.tla expectation %r and CPython tokenisation %r disagree:\n%s" % (exp, cand, text))
+        if len(real) != 1:
+            V.violation(dict(ex, recorded=real), "the token is recorded %d times" % len(real))
+            continue
+        got = real[0]
+        if got[0] > got[1]:
+            V.violation(dict(ex, recorded=got), "a recorded range has start after end")
+        if got == exp:
+            continue
+        e2 = dict(ex, expected_utf16=exp, recorded=got, model_predicts=impl, blame=c["blame"])
+        if got == impl:
+            V.classify(c["blame"], e2, "a reported range does not cover exactly the identifier / string content in UTF-16 columns")
+        else:
+            V.drift += 1
+            V.violation(e2, "a reported range differs from the token and from the implementation model")
+    # ---- structural rules of LSP responses on the C03 function corpus (real binary)
+    C.build_server()
+    m = C.run_tlc("Extract", "Extract_body.cfg", workers=4, timeout=3600)
+    fcases = [x for x in C.tlc_cases(m)][:: (6 if tier == "quick" else 1)]
+    base = os.path.join(C.BUILD, "ws", "c15-%d" % os.getpid())
+    import shutil
+    shutil.rmtree(base, ignore_errors=True)
+
+    def session(job):
+        n, fc = job
+        root = os.path.join(base, "s%d" % n)
+        os.makedirs(root, exist_ok=True)
+        text = render_fn(fc["fn"]) + "\n\ndef test_uses(fx_sample):\n    pass\n"
+        path = os.path.join(root, "test_s.py")
+        srv = lsp.Server()
+        try:
+            srv.initialize(root)
+            srv.did_open(path, text)
+            lines = text.split("\n")
+            tline = next(i for i, l in enumerate(lines) if l.startswith("def test_uses("))
+            out = {"symbols": srv.doc_request("textDocument/documentSymbol", path),
+                   "definition": srv.pos_request("textDocument/definition", path, tline, 15),
+                   "references": srv.pos_request("textDocument/references", path, tline, 15, {"context": {"includeDeclaration": True}}),
+                   "lens": srv.doc_request("textDocument/codeLens", path),
+                   "text": text, "tline": tline}
+            out["alive"] = srv.alive()
+            return out
+        except (lsp.ServerDied, lsp.Timeout) as e:
+            return {"error": str(e), "text": text}
+        finally:
+            srv.close()
+            shutil.rmtree(root, ignore_errors=True)
+
+    for fc, r in zip(fcases, lsp.run_parallel(list(enumerate(fcases)), session, workers=8)):
+        V.count()
+        if r is None or "__exception__" in r:
+            raise C.ToolError("LSP session failed: %r" % (r,))
+        if "error" in r:
+            V.violation({"function": fc["fn"], "error": r["error"], "text": r["text"]}, "server died during a position request")
+            continue
+        text = r["text"]
+        lines = text.split("\n")
+        cdefs, _ = cpyextract.extract(text)
+        d0 = [d for d in cdefs if d["name"] == "fx_sample"]
+        ex = {"function": fc["fn"], "text": text}
+
+        def inside(rg):
+            return rg["start"]["line"] < len(lines) and rg["end"]["line"] < len(lines) and \
+                (rg["start"]["line"], rg["start"]["character"]) <= (rg["end"]["line"], rg["end"]["character"])
+
+        for s in (r["symbols"] or []):
+            if not inside(s["range"]) or not inside(s["selectionRange"]):
+                V.violation(dict(ex, symbol=s), "documentSymbol range is malformed or outside the document")
+            sr, fr = s["selectionRange"], s["range"]
+            if not ((fr["start"]["line"], fr["start"]["character"]) <= (sr["start"]["line"], sr["start"]["character"])
+                    and (sr["end"]["line"], sr["end"]["character"]) <= (fr["end"]["line"], fr["end"]["character"])):
+                V.classify(["symbol_range_ends_col0"], dict(ex, symbol=s), "a symbol's selection range is not inside its full range")
+        dfn = r["definition"]
+        if d0 and dfn:
+            loc = dfn if isinstance(dfn, dict) else dfn[0]
+            tgt = loc["range"]["start"]["line"] + 1
+            ok_lines = {d0[0]["line"]} | ({d0[0]["yield_line"]} if d0[0]["yield_line"] else set())
+            if tgt not in ok_lines:
+                V.violation(dict(ex, target_line=tgt, def_line=d0[0]["line"]), "go-to-definition does not land on the def (or yield) line")
+        refs = r["references"] or []
+        keys = [json.dumps(x, sort_keys=True) for x in refs]
+        if len(keys) != len(set(keys)):
+            V.violation(dict(ex, references=refs), "find-references lists a location twice")
+    shutil.rmtree(base, ignore_errors=True)
+    V.sample({"construct": cases[0]["c"], "line": "".join(piece_text(p) for p in (cases[0]["line"]["before"] or [])) + "...",
+              "expect": cases[0]["expect"]})
+    cov = {"states": meta["distinct"], "transitions": meta["transitions"],
+           "traces_validated_against_impl": len(results) + len(fcases), "exhaustive": True,
+           "tlc": {"module": "Positions", "wall_s": meta["wall_s"]}}
+    return V.finish(
+        coverage_extra=cov,
+        rule="token layouts: construct {test parameter, fixture parameter, usefixtures on function / class, pytestmark, "
+             "indirect parametrize True / list, def name plain / async / tab-indented / class-nested} x what precedes the token "
+             "on its line {nothing, ASCII, 2-byte, 3-byte, 4-byte (surrogate pair) character} x string form {'', \"\", triple, "
+             "r\"\", R'', u\"\"} x name {ASCII, non-ASCII} x line ending {LF, CRLF}; expected UTF-16 range = sum of declared "
+             "piece widths (re-checked against the text and against CPython's tokenisation); plus structural rules of "
+             "documentSymbol / definition / references responses of the real binary on the C03 function corpus",
+        assumptions=["library-level line/start_char/end_char are what the handlers put into LSP ranges (thin conversion, line-1)"])
